@@ -111,7 +111,79 @@ def t_flip(t):
     return T().visit(t)
 
 
-ALL = {"reprint": t_reprint, "locals": t_locals, "nparams": t_nparams, "asserts": t_asserts, "temps": t_temps, "annotate": t_annotate, "split": t_split, "flip": t_flip}
+def t_eqswap(t):
+    """a == b  ->  b == a (and !=) where both sides are names, attributes, constants, subscripts or calls of len: equality is symmetric for every value the package compares"""
+    def simple(e):
+        return isinstance(e, (ast.Name, ast.Attribute, ast.Constant, ast.Subscript, ast.Tuple)) or (isinstance(e, ast.Call) and ast.unparse(e.func) == "len")
+
+    class T(ast.NodeTransformer):
+        def visit_Compare(self, n):
+            self.generic_visit(n)
+            if len(n.ops) == 1 and isinstance(n.ops[0], (ast.Eq, ast.NotEq)) and simple(n.left) and simple(n.comparators[0]):
+                return ast.Compare(left=n.comparators[0], ops=n.ops, comparators=[n.left])
+            return n
+    return T().visit(t)
+
+
+def t_ifstmt(t):
+    """x = a if c else b  ->  if c: x = a  else: x = b   (single Name target)"""
+    class T(ast.NodeTransformer):
+        def visit_Assign(self, n):
+            if len(n.targets) == 1 and isinstance(n.targets[0], ast.Name) and isinstance(n.value, ast.IfExp):
+                mk = lambda v: ast.Assign(targets=[ast.Name(id=n.targets[0].id, ctx=ast.Store())], value=v)
+                return ast.If(test=n.value.test, body=[mk(n.value.body)], orelse=[mk(n.value.orelse)])
+            return n
+    return T().visit(t)
+
+
+def t_ltswap(t):
+    """a < b -> b > a  (and <=, >, >=) for single comparisons"""
+    FLIP = {ast.Lt: ast.Gt, ast.Gt: ast.Lt, ast.LtE: ast.GtE, ast.GtE: ast.LtE}
+
+    class T(ast.NodeTransformer):
+        def visit_Compare(self, n):
+            self.generic_visit(n)
+            if len(n.ops) == 1 and type(n.ops[0]) in FLIP:
+                return ast.Compare(left=n.comparators[0], ops=[FLIP[type(n.ops[0])]()], comparators=[n.left])
+            return n
+    return T().visit(t)
+
+
+def t_noelse(t):
+    """if c: ...return/raise  else: rest   ->   if c: ...return/raise;  rest   (the else of a branch that always leaves)"""
+    def leaves(body):
+        return bool(body) and isinstance(body[-1], (ast.Return, ast.Raise, ast.Continue, ast.Break))
+    for node in ast.walk(t):
+        for field in ("body", "orelse", "finalbody"):
+            body = getattr(node, field, None)
+            if not (isinstance(body, list) and body and all(isinstance(s, ast.stmt) for s in body)):
+                continue
+            new = []
+            for st in body:
+                if isinstance(st, ast.If) and st.orelse and leaves(st.body) and not (len(st.orelse) == 1 and isinstance(st.orelse[0], ast.If)):
+                    rest, st.orelse = st.orelse, []
+                    new.append(st)
+                    new.extend(rest)
+                else:
+                    new.append(st)
+            setattr(node, field, new)
+
+
+def t_addelse(t):
+    """if c: ...return;  rest   ->   if c: ...return  else: rest   (when the `if` is followed by the rest of the block and has no else)"""
+    def leaves(body):
+        return bool(body) and isinstance(body[-1], (ast.Return, ast.Raise))
+    for node in ast.walk(t):
+        if isinstance(node, ast.FunctionDef):
+            body = node.body
+            for k, st in enumerate(body):
+                if isinstance(st, ast.If) and not st.orelse and leaves(st.body) and k + 1 < len(body) and k > 0:
+                    st.orelse = body[k + 1:]
+                    del body[k + 1:]
+                    break
+
+
+ALL = {"ltswap": t_ltswap, "noelse": t_noelse, "addelse": t_addelse, "eqswap": t_eqswap, "ifstmt": t_ifstmt, "reprint": t_reprint, "locals": t_locals, "nparams": t_nparams, "asserts": t_asserts, "temps": t_temps, "annotate": t_annotate, "split": t_split, "flip": t_flip}
 
 
 def main():
